@@ -35,12 +35,13 @@ const (
 	outReturned     outcomeKind = iota // printed "returned", exit 0
 	outDeadlock                        // Go runtime: all goroutines are asleep - deadlock!
 	outBlocked                         // deadline expired AND the SIGQUIT dump shows the render call parked
+	outSpinning                        // deadline expired, the render call is still running and the child has burnt CPU for most of the deadline
 	outCrash                           // panic / other fatal error inside the child
 	outInconclusive                    // anything else (deadline without evidence, killed, harness error)
 )
 
 func (k outcomeKind) String() string {
-	return [...]string{"returned", "runtime-deadlock", "deadline+blocked-in-render", "crash", "inconclusive"}[k]
+	return [...]string{"returned", "runtime-deadlock", "deadline+blocked-in-render", "deadline+spinning-in-render", "crash", "inconclusive"}[k]
 }
 
 type childStatus struct {
@@ -65,6 +66,8 @@ type outcome struct {
 	Stdout   string
 	Stderr   string
 	TimedOut bool
+	CPU      time.Duration // user+system time of the child
+	Deadline time.Duration
 }
 
 func childBinary() (string, error) {
@@ -118,7 +121,10 @@ func runChild(c fc.Case, deadline time.Duration) outcome {
 			werr = <-done
 		}
 	}
-	o := outcome{Stdout: so.String(), Stderr: se.String(), TimedOut: timedOut}
+	o := outcome{Stdout: so.String(), Stderr: se.String(), TimedOut: timedOut, Deadline: deadline}
+	if ps := cmd.ProcessState; ps != nil {
+		o.CPU = ps.UserTime() + ps.SystemTime()
+	}
 	var ee *exec.ExitError
 	if errors.As(werr, &ee) {
 		o.Exit = ee.ExitCode()
@@ -214,6 +220,11 @@ func classify(o *outcome) {
 		o.Where = where
 		if found && isParked {
 			o.Kind = outBlocked
+		} else if found && o.CPU >= o.Deadline*2/3 && o.Deadline >= 30*time.Second {
+			// not waiting for anything and not starved of the processor: the child has been computing for at
+			// least two thirds of a deadline that is thousands of times what these renders need (measured in
+			// the CHILD's CPU time, which the load of the machine does not stretch) and is still inside the call
+			o.Kind = outSpinning
 		} else {
 			o.Kind = outInconclusive
 			o.Detail = "deadline expired but the goroutine dump does not show the render call parked (" + where + ")"
